@@ -1,4 +1,4 @@
--- CHANNEL editx
+-- CHANNEL edit7x
 import Ccp.Wire
 import Ccp.Model.EditX
 import Ccp.Drv.Edit
